@@ -308,6 +308,28 @@ func runHistory(c *vm.Ctx, r *vm.Rand, hi int, nops int, flavour string, big boo
 					// old handle is simply dropped
 				}
 				reg = reg2
+				// "the file was written long ago": give every present chunk a distinct old timestamp in the backing
+				// store and load it again, so that from here on any write that changes the in-memory timestamp but
+				// not the header (or the reverse) shows at the next reopen without waiting for the clock to tick
+				if flavour != "osfile" && op.Tag%2 == 0 && len(st.mem.B) >= 8192 {
+					for z := 0; z < 32; z++ {
+						for x := 0; x < 32; x++ {
+							if reg.ExistSector(x, z) {
+								binary.BigEndian.PutUint32(st.mem.B[4096+4*(z*32+x):], uint32(1_000_000+z*32+x))
+							}
+						}
+					}
+					f, _ := open()
+					if reg3, e3 := region.Load(f); e3 != nil {
+						c.Violation("reopen/error", "re-opening the region after ageing its timestamps failed: "+e3.Error(), h.wit())
+						ok = false
+						return
+					} else {
+						reg = reg3
+					}
+					h.add("header timestamps of present chunks set to 1000000+index in the backing store; Load")
+					c.Cover("op.aged-timestamps")
+				}
 				c.Cover("op.reopen")
 			}
 		}
